@@ -1519,6 +1519,25 @@ func (vc *VC) assign(st *State, lhs ast.Expr, v Val) {
 			k := vc.evalConv(st, x.Index, u.Key())
 			v = vc.convert(st, v, u.Elem())
 			vc.assign(st, x.X, vc.mapStore(base, k, v))
+		case *types.Pointer:
+			// p[i] = v with p a pointer to a small byte array: read-modify-write of the pointee
+			if at, ok := u.Elem().Underlying().(*types.Array); ok && isByteArraySmall(at) {
+				pv := vc.eval(st, x.X)
+				cur := vc.deref(st, pv, x.Pos())
+				idx := vc.eval(st, x.Index)
+				goal := fmt.Sprintf("(and (<= 0 %s) (< %s %d))", idx.S, idx.S, at.Len())
+				vc.emit(st, "bounds", vc.fn.Key+"/bounds", vc.site("bounds"), goal, x.Pos(), "")
+				v = vc.convert(st, v, at.Elem())
+				if c, ok := smallConst(idx.S); ok {
+					pw := new(big.Int).Exp(big.NewInt(256), big.NewInt(at.Len()-1-c), nil).String()
+					ns := fmt.Sprintf("(+ (- %s (* (mod (div %s %s) 256) %s)) (* %s %s))", cur.S, cur.S, pw, pw, v.S, pw)
+					vc.storeDeref(st, pv, Val{S: ns, Ty: u.Elem(), Sort: "Int"}, x.Pos())
+					return
+				}
+				vc.unsupportedf(x.Pos(), "symbolic index write into small byte array")
+				return
+			}
+			vc.unsupportedf(x.Pos(), "index assignment on %s", baseT)
 		default:
 			vc.unsupportedf(x.Pos(), "index assignment on %s", baseT)
 		}
